@@ -36,7 +36,8 @@ theorem sysRun_proj (F : Facts12) (sched : List Nat) : ∀ s : SysState,
       · simp [hk, List.filter, rrun]
 
 theorem good_safe (F : Facts12) (hG : F.Good) (op : ROp) (h : op.isPark = false) : op.Safe F.rfacts := by
-  obtain ⟨_, h1, h2, h3, h4, h5, _⟩ := hG
+  obtain ⟨_, h1, h2, h3, h4, h5, _, h7⟩ := hG
+  have hctx : ∀ c, F.rfacts.ctxShared c = false := by intro c; simp [Facts12.rfacts, h7]
   cases op with
   | probe k => trivial
   | publish k =>
@@ -47,12 +48,14 @@ theorem good_safe (F : Facts12) (hG : F.Good) (op : ROp) (h : op.isPark = false)
   | readErr => exact h5
   | park x => simp [ROp.isPark] at h
   | unpark x => simp [ROp.isPark] at h
+  | setCtx c => exact hctx c
+  | getCtx c => exact hctx c
 
 theorem faithful_allsafe (F : Facts12) (hG : F.Good) (q : Req) (hq : q.Faithful F) :
     AllSafe F.rfacts q.local := by
   intro op hop
   apply good_safe F hG
-  have hp : F.parked = [] := hG.2.2.2.2.2.2
+  have hp : F.parked = [] := hG.2.2.2.2.2.2.1
   cases q with
   | wsdl => simp [Req.local] at hop
   | rpc a inv p =>
@@ -154,7 +157,7 @@ theorem sys_main (F : Facts12) (hG : F.Good) (reqs : List Req) (hf : ∀ q ∈ r
         rw [hq] at this
         exact this
       rw [hl] at hr
-      simp only [soloResponse, mkReq, List.nil_append, Option.some.injEq] at hr
+      simp only [soloResponse, mkReq, List.nil_append, Option.some.injEq, List.lookup] at hr
       rw [← hr]
     · simp at hr
 
